@@ -252,3 +252,18 @@ Theorem C13_copy_under_lock_same_schedule :
   = [OOk; OOk; OVal (VHash [(fa, SInt 0); (fb, SInt 0)]); OOk; OOk].
 Proof. exact copy_under_lock_same_schedule. Qed.
 Print Assumptions C13_copy_under_lock_same_schedule.
+
+(* Concurrent increments.  IncrBy is one critical section of the model, so by C13_linearizable_all_schedules concurrent
+   increments of one counter return pairwise distinct values and none is lost.  A "fast path" that loads and stores the
+   counter while holding only the read lock is refuted: two callers both return 6. *)
+Theorem C13_incr_under_read_lock_refuted :
+  ~ legal DAY 1000
+      (sh_log (fst (run shared local5 (tstep_incr_under_read_lock DAY repaired) (init5 1000 incr_progs) incr_sched))).
+Proof. exact incr_under_read_lock_refuted. Qed.
+Print Assumptions C13_incr_under_read_lock_refuted.
+
+Theorem C13_incr_one_section_same_programs :
+  map snd (sh_log (fst (run shared local (tstep DAY repaired) (init 1000 incr_progs) [0; 1; 0]%nat)))
+  = [OInt 5; OInt 6; OInt 7].
+Proof. exact incr_one_section_same_programs. Qed.
+Print Assumptions C13_incr_one_section_same_programs.
